@@ -373,4 +373,35 @@ def generic_source_docs():
     if got != want:
         return {"confirmed": True, "input": {"tool.py": src, "extra_filetypes": "py #"}, "actual": got, "expected": want,
                 "how": "real Project + Project.markdown: tracer words of the documentation of a file of an extra file type, in order"}
+    # preceding documentation switched off (`predocmark` empty): the ordinary comments still stay out
+    proj = realrun.build_project({"src/m.f90": "module m\nend module m\n", "src/tool.py": src}, extra_filetypes={"py": st.ExtraFileType("py", "#")}, predocmark="")
+    files = getattr(proj, "extra_files", [])
+    if files:
+        proj.markdown(mdm.MetaMarkdown(aliases={}, project=proj))
+        got = [w for w in re.findall(r"[a-z]+w\d", html.unescape(re.sub(r"<[^>]+>", " ", str(files[0].doc))))]
+        if got != want:
+            return {"confirmed": True, "input": {"tool.py": src, "extra_filetypes": "py #", "predocmark": ""}, "actual": got, "expected": want,
+                    "how": "real Project + Project.markdown with predocmark empty: tracer words of the documentation of a file of an extra file type"}
+    return None
+
+
+def pageless_entity_docs():
+    """an entity without a page of its own (a type local to a procedure, its components; shown with proc_internals) is documented by what its summary shows: the whole comment"""
+    src = ("module m\ncontains\n  subroutine worker()\n    !! worker doc\n    type :: local_t\n      !! typeone typetwo\n      !!\n      !! typethree typefour\n      !!\n      !! - typefive\n"
+           "      integer :: comp\n        !! compone\n        !!\n        !! comptwo compthree\n    end type local_t\n  end subroutine worker\nend module m\n")
+    proj = realrun.build_project({"src/m.f90": src}, proc_internals=True)
+    mdm = loader.import_repo("ford._markdown")
+    proj.markdown(mdm.MetaMarkdown(aliases={}, project=proj))
+    w = proj.modules[0].subroutines[0]
+    t = w.types[0]
+    bad = []
+    for label, e, want in (("type local_t", t, ["typeone", "typetwo", "typethree", "typefour", "typefive"]), ("component comp", t.variables[0], ["compone", "comptwo", "compthree"])):
+        if e.get_url():
+            continue
+        shown = re.findall(r"(?:type|comp)[a-z]+", html.unescape(re.sub(r"<[^>]+>", " ", str(e.meta.summary or ""))))
+        if shown != want:
+            bad.append((label, shown, want))
+    if bad:
+        return {"confirmed": True, "input": {"source": src, "settings": {"proc_internals": True}}, "actual": bad, "expected": "the summary of an entity that has no page holds its whole documentation",
+                "how": "real Project + Project.markdown: words of meta.summary of entities whose get_url() is None"}
     return None
